@@ -22,6 +22,7 @@ RULES = [
     Rule('C08.R4', 'targets beyond the end rewind and return 0; replay starts from the rewound position', 3),
     Rule('C08.R5', 'the loop is treated as passed only for targets at or beyond the loop end', 1),
     Rule('C08.R6', 'the state reset that precedes the replay restores every channel field a channel event can change', 20),
+    Rule('C08.R8', 'Tick moves the reported position and the pending wait by the same, tempo-scaled step (seek stores the position in song seconds)', 2),
     Rule('C08.R7', 'rewind() restores every sequencer member that playback changes', 4),
 ]
 EXPLANATION = ('CFG order / dominance rules over opn2_positionSeek, BW_MidiSequencer::seek and processEvents. Thin claim: necessary conditions of "seek equals '
@@ -184,6 +185,7 @@ def analyse(facts, tier):
     obls += r6(facts)
     obls += r7(facts)
     obls += r1b_audio(facts)
+    obls += r8_tick_units(facts)
     return obls
 
 
@@ -233,9 +235,23 @@ def r6(facts):
         raise build.AnalysisBroken('C08.R6: only %d channel fields found to be written by the event handlers' % len(written))
     # the song-begin hook is wired to realTime_ResetState
     sb = [f for f in facts.all_fns() if f.name == 'rtSongBegin']
-    wired = bool(sb) and any(short(callee_name(x)) == 'realTime_ResetState' for b, ex, loc in sb[0].cfg.exprs() for x in calls_in(ex))
+    def reaches_reset(fn, depth=0):
+        # on every path: the call (or a callee that itself always reaches it) sits in a block that post-dominates the entry
+        for b, j, st in fn.cfg.stmts():
+            if not (b == fn.cfg.entry or ('b', b) in (fn.cfg.pdom().get(('b', fn.cfg.entry)) or ())):
+                continue
+            for x in calls_in(st['s']):
+                cn = callee_name(x)
+                if short(cn) == 'realTime_ResetState':
+                    return True
+                if depth < 2 and cn in facts.fns and cn.startswith('OPNMIDIplay::') and reaches_reset(facts.fns[cn][0], depth + 1):
+                    return True
+        return False
+    wired = bool(sb) and reaches_reset(sb[0])
     out.append(Obl('C08.R6', 'rtSongBegin', 'song-begin hook resets the synthesizer state', sb[0].loc if sb else rs.loc, 'discharged' if wired else 'finding',
-                   why='calls realTime_ResetState()' if wired else 'the song-begin hook does not reach realTime_ResetState'))
+                   why='reaches realTime_ResetState() on every path' if wired else 'the song-begin hook does not reach realTime_ResetState'))
+    out += r6_player_members(facts, sb[0] if sb else None)
+    out += r6_hook_not_gated(facts)
     for fld, (h, loc) in sorted(written.items()):
         ok = fld in reset
         out.append(Obl('C08.R6', rs.name, 'channel field ' + fld, rs.loc, 'discharged' if ok else 'finding',
@@ -339,4 +355,159 @@ def r1b_audio(facts):
                            'delay, carry and tick_skip_samples_delay are stored after the move'))
     if n < 2:
         raise build.AnalysisBroken('C08.R1: API functions that seek / rewind the sequencer not found')
+    return out
+
+
+def r8_tick_units(facts):
+    """seek(t) stores absTimePosition = t in song seconds and replays song time; Tick(s) must therefore advance absTimePosition in
+    song seconds too: by the step after it was multiplied by the tempo multiplier, the same value it subtracts from the wait.
+    Rule: in Tick the statement `s *= m_tempoMultiplier` executes before both `wait -= s` and `absTimePosition += s`, and both take
+    the parameter itself (no other expression)."""
+    out = []
+    fn = facts.fn(SEQ + '::Tick')
+    par = fn.params[0]['id']
+    scale = None
+    uses = []
+    for b, j, st in fn.cfg.stmts():
+        for x in walk(st['s']):
+            ap = assign_parts(x)
+            if not ap:
+                continue
+            t = strip(ap[0])
+            if t.get('id') == par and ap[2] == '*=' and any(y.get('k') == 'MemberExpr' and short(y['n']) == 'm_tempoMultiplier' for y in walk(ap[1])):
+                scale = (b, j)
+            if t.get('k') == 'MemberExpr' and short(t['n']) in ('wait', 'absTimePosition') and ap[2] in ('-=', '+='):
+                uses.append((b, j, st, short(t['n']), ap[1]))
+    if scale is None or len(uses) < 2:
+        raise build.AnalysisBroken('C08.R8: tempo scaling / position update of Tick not found')
+    for b, j, st, fld, rhs in uses:
+        r = strip(rhs)
+        if r.get('id') != par:
+            continue        # the anti-freeze penalty and other constant adjustments
+        after = (b == scale[0] and j > scale[1]) or (b != scale[0] and fn.cfg.block_dominates(scale[0], b))
+        out.append(Obl('C08.R8', fn.name, '%s advanced by the scaled step' % fld, st['loc'], 'discharged' if after else 'finding',
+                       why='executes after s *= m_tempoMultiplier' if after else
+                       '%s is advanced by the unscaled step while seek() stores it in song seconds: with a tempo multiplier != 1 the reported position and the positions reached by seeking disagree' % fld))
+    if sum(1 for o in out) < 2:
+        raise build.AnalysisBroken('C08.R8: Tick no longer advances both wait and absTimePosition by its parameter')
+    return out
+
+
+# player-level members stored by sequencer-driven entry points that the song-begin callback need not restore
+PLAYER_EXEMPT = {'m_midiDevices': 'device name -> channel block: no positional state, a name keeps its block as long as the channel table lives (dropped with it in resetMIDI)'}
+_MUT = ('clear', 'insert', 'erase', 'push_back', 'resize', 'assign', 'swap', 'pop_back')
+
+
+def player_stores(facts, fn, depth=0, seen=None):
+    """direct members of OPNMIDIplay (this->m_x) stored by fn or by the OPNMIDIplay methods it calls: assignment (through [] and
+    operator[]), ++/--, mutating container methods"""
+    seen = seen if seen is not None else set()
+    out = {}
+    if fn.name in seen:
+        return out
+    seen.add(fn.name)
+    def member_of(t):
+        t = strip(t)
+        while isinstance(t, dict):
+            if t.get('k') == 'ArraySubscriptExpr':
+                t = strip(t['b']); continue
+            if t.get('k') == 'CXXOperatorCallExpr' and 'operator[]' in (t.get('callee') or '') and t.get('a'):
+                t = strip(t['a'][0]); continue
+            if t.get('k') == 'MemberExpr' and t.get('b') is not None and not (t['n'].startswith('OPNMIDIplay::m_') and t['n'].count('::') == 1):
+                t = strip(t['b']); continue
+            break
+        if isinstance(t, dict) and t.get('k') == 'MemberExpr' and t['n'].startswith('OPNMIDIplay::m_') and t['n'].count('::') == 1 and strip(t.get('b')).get('k') == 'CXXThisExpr':
+            return short(t['n'])
+        return None
+    for b, j, st in fn.cfg.stmts():
+        for x in walk(st['s']):
+            ap = assign_parts(x)
+            tgt = ap[0] if ap else (x['e'] if is_incdec(x) else None)
+            if tgt is not None:
+                m = member_of(tgt)
+                if m:
+                    out.setdefault(m, st['loc'])
+            if 'callee' in x and x.get('obj') is not None and short(callee_name(x)) in _MUT:
+                m = member_of(x['obj'])
+                if m:
+                    out.setdefault(m, st['loc'])
+            cn = callee_name(x)
+            if cn and depth < 4 and cn in facts.fns and cn.startswith('OPNMIDIplay::') and cn.count('::') == 1:
+                for k2, v2 in player_stores(facts, facts.fns[cn][0], depth + 1, seen).items():
+                    out.setdefault(k2, v2)
+    return out
+
+
+def r6_player_members(facts, sb):
+    """state outside the channel records: every OPNMIDIplay member that an event delivered by the sequencer can store (through the rt*
+    wrappers of opnmidi_sequencer.cpp) is restored by what the song-begin callback reaches, or is exempt with a reason"""
+    out = []
+    if sb is None:
+        return out
+    rts = [fn for fn in facts.all_fns() if fn.relfile() == 'src/opnmidi_sequencer.cpp' and fn.name.startswith('rt') and fn.name != 'rtSongBegin']
+    written = {}
+    for fn in rts:
+        for b, ex, loc in fn.cfg.exprs():
+            for x in calls_in(ex):
+                cn = callee_name(x)
+                if cn and cn.startswith('OPNMIDIplay::') and cn in facts.fns:
+                    for k, v in player_stores(facts, facts.fns[cn][0]).items():
+                        written.setdefault(k, (short(cn), v))
+    restored = {}
+    for b, ex, loc in sb.cfg.exprs():
+        for x in calls_in(ex):
+            cn = callee_name(x)
+            if cn in facts.fns:
+                restored.update(player_stores(facts, facts.fns[cn][0]))
+    if len(written) < 4:
+        raise build.AnalysisBroken('C08.R6: only %d player members found to be stored by sequencer-driven events' % len(written))
+    for m, (h, loc) in sorted(written.items()):
+        if m in PLAYER_EXEMPT:
+            out.append(Obl('C08.R6', 'rtSongBegin', 'player member ' + m, sb.loc, 'discharged', why='reviewed: ' + PLAYER_EXEMPT[m], nontrivial=False))
+            continue
+        ok = m in restored
+        out.append(Obl('C08.R6', 'rtSongBegin', 'player member ' + m, sb.loc, 'discharged' if ok else 'finding',
+                       why='stored by %s, restored at the song begin' % h if ok else
+                       '%s stores OPNMIDIplay::%s (%s) but nothing the song-begin callback reaches restores it: after a backward seek or a rewind the replay runs with the value set later in the song' % (h, m, loc.rsplit('/', 1)[-1])))
+    return out
+
+
+def r6_hook_not_gated(facts):
+    """the reset is delivered as a synthetic event of track 0: the track solo / disable returns of handleEvent must not apply to it"""
+    out = []
+    he = facts.fn(SEQ + '::handleEvent')
+    hook = facts.enums.get('ST_SONG_BEGIN_HOOK')
+    if hook is None:
+        raise build.AnalysisBroken('C08.R6: ST_SONG_BEGIN_HOOK not found')
+    n = 0
+    for b, j, st in he.cfg.returns():
+        gf = guard_facts(he, b, st)
+        txt = ' '.join(fact_str(f) for f in gf)
+        if not ('m_trackSolo' in txt or 'm_trackDisable' in txt):
+            continue
+        n += 1
+        ok = False
+        def alts(f):
+            # an `or` fact is a list of alternatives, each a list of literals
+            if f[0] == 'or':
+                return [a for a in f[1]]
+            return [[f]]
+        for f in gf:
+            # the negation of (type == T_SPECIAL && subtype == HOOK): an `or` with exactly the alternatives type != T_SPECIAL, subtype != HOOK
+            if f[0] != 'or':
+                continue
+            al = alts(f)
+            has_hook = False
+            for a in al:
+                for lit in a:
+                    nn = cmp_norm(lit) if lit[0] == 'cmp' else None
+                    if nn and nn[0] == '!=' and nn[2] == hook and mentions(nn[1], member_named('subtype')) and len(a) == 1:
+                        has_hook = True
+            if has_hook and len(al) <= 2:
+                ok = True
+        out.append(Obl('C08.R6', he.name, 'track gating does not drop the song-begin event', st['loc'], 'discharged' if ok else 'finding',
+                       why='the gating return is reached only for events other than ST_SONG_BEGIN_HOOK' if ok else
+                       'with a track soloed (or track 0 switched off) the synthetic song-begin event is dropped with the rest of track 0: the state reset of a seek / rewind never runs'))
+    if n < 2:
+        raise build.AnalysisBroken('C08.R6: track gating returns of handleEvent not found')
     return out
